@@ -70,6 +70,10 @@ class StripCommentsFilter:
                 # a valid SQL (see #425).
                 if prev_ is not None and not prev_.match(T.Punctuation, '('):
                     tlist.tokens.insert(tidx, _get_insert_token(token))
+                else:
+                    # nothing takes the comment's place, so the next token
+                    # moves to its index and must not be skipped
+                    tidx -= 1
                 tlist.tokens.remove(token)
             else:
                 tlist.tokens[tidx] = _get_insert_token(token)
